@@ -333,6 +333,16 @@ impl Selection {
         self.hscroll_offset
     }
 
+    #[cfg(feature = "verif")]
+    pub fn verif_cursors(&self) -> (usize, usize) {
+        (self.item_cursor, self.line_cursor)
+    }
+
+    #[cfg(feature = "verif")]
+    pub fn verif_selected_keys(&self) -> Vec<(u32, u32)> {
+        self.selected.keys().cloned().collect()
+    }
+
     pub fn get_num_options(&self) -> usize {
         self.items.len()
     }
